@@ -32,7 +32,10 @@ META = dict(
                "visit loop termination/divergence.  Generation as a function of a tape of draws (every arithmetic, every tape): requested number of "
                "individuals, ages = integers in units of the chosen precision, strictly increasing, consecutive ones >= one unit apart, exactly the "
                "rounded generated ages / the table's ages per ID whatever the row order (C18_generation_random / _table / _table_accepted / "
-               "_age_units, C18_table_row_order_irrelevant), draws consumed (4+S)n + later visits resp. (2+S)*n_groups.",
+               "_age_units, C18_table_row_order_irrelevant), draws consumed (4+S)n + later visits resp. (2+S)*n_groups.  The regenerated program is "
+               "statically well-formed (prog_wf, decided on gen_prog_src), hence on every accepted design the generation crashes exactly for a bool count / "
+               "a non-string table ID and is otherwise the table, GExhausted or GMismatch (C18_generation_never_crashes); a table design on (2+S) vectors "
+               "of n_groups values completes (C18_generation_table_total).",
     level_note="Trusted: Coq kernel; python-ast translators (pysym, pyvalid); pandas round/duplicated/groupby, numpy RNG, scipy beta.rvs, "
                "leaspy estimate (the model values are taken from the implementation); float arithmetic compared with stated tolerances; "
                "NaN/inf parameters and mixed-type ID columns are outside the model.",
@@ -52,6 +55,7 @@ OBLIGATIONS = [
     "C18_tie_constants", "C18_tie_options", "C18_tie_order",
     "C18_ages_wellformed_meaning", "C18_generation_random", "C18_generation_table", "C18_generation_table_accepted", "C18_table_row_order_irrelevant",
     "C18_generation_age_units", "C18_draws_random_design_only_refuted", "C18_tie_generation",
+    "C18_tie_generation_wf", "C18_generation_never_crashes", "C18_generation_random_no_crash", "C18_generation_table_total",
 ]
 
 HEADER = """(* REGENERATED on every run from $VERIF_REPO/src/leaspy by harness/props/c18.py — do not edit *)
@@ -1323,7 +1327,8 @@ def main(run: Run):
     ok_p = run.prove("C18", OBLIGATIONS) if ok_t else False
     run.assumptions += [
         "the values returned by numpy.random.normal are the tape of the generation model (their distribution is numpy's); the generation theorems "
-        "are stated for the tapes on which the generation ends (GOk): a tape too short is GExhausted (visit loop not terminated)",
+        "are stated for the tapes on which the generation ends (GOk): a tape too short is GExhausted (visit loop not terminated); GCrash is proved to be "
+        "exactly a bool count / a non-string table ID on accepted designs (C18_generation_never_crashes)",
         "scipy.stats.beta.rvs is defined and returns values in [0,1] whenever both parameters are positive (hypothesis of C18_values_in_unit)",
         "model values returned by estimate are taken from the implementation (any rational is covered by the theorems)",
         "float32/float64 rounding is outside the theorems; comparisons use stated tolerances, requested ages within 1e-6 of a rounding tie are skipped",
